@@ -219,6 +219,16 @@ class C06(fw.Prop):
                 ct = f"seal:{EK[0]}:{EK[1]}:{MT}:{ic}:{cfg.suite + 48}:{AK[0]}:{AK[1]}:s.getRespNormal"
                 ops.append(["recv", ["ggc", MT, str(cfg.suite + 48), str(ic), ct], None])
             yield self.make_case({"cfg": cfg.to_json(), "ops": ops, "tag": "counter-zero"})
+        # every kind of answer raises the floor: each is delivered, then delivered again as the answer to the next request, then
+        # another answer under the same counter, then one under the next counter
+        for kind, req in (("exceptionResp", "getReq"), ("exceptionRespIc", "getReq"), ("getRespErr", "getReq"), ("getRespNormal", "getReq"),
+                          ("setResp", "setReq"), ("actResp", "actReq"), ("actRespErr", "actReq"), ("dataNotif", None), ("getRespLastBlockErr", "getReq")):
+            for ic in (7, 2 ** 31):
+                cfg = cl.Cfg(ek=EK, ak=AK, pre=True, state="READY", meter_title=MT, cic=3, mic=0)
+                seal = lambda k, c: ["recv", ["ggc", MT, str(cfg.suite + 48), str(c), f"seal:{EK[0]}:{EK[1]}:{MT}:{c}:{cfg.suite + 48}:{AK[0]}:{AK[1]}:s.{k}"], None]
+                rq = [["send", req, 1]] if req else []
+                ops = rq + [seal(kind, ic)] + rq + [seal(kind, ic)] + [["send", "getReq", 1], seal("getRespNormal", ic), ["send", "getReq", 1], seal("getRespNormal", ic + 1)]
+                yield self.make_case({"cfg": cfg.to_json(), "ops": ops, "tag": "every-kind-twice"})
         # the replay floor survives a release: a second association on the same connection refuses the recorded APDUs
         # of the first one
         for n in (100, 7):
